@@ -154,6 +154,15 @@ def apply_mutation(o, kind, mut, p):
             o.metadata[p["key"]] = C.rebuild(p["junk"])
         elif mut == "set_name":
             o.name = p["name"]
+        elif mut == "set_param":
+            # the caller edits a parameter of one of its parameterised gates (k-th such gate, cyclically)
+            idx = [i for i, inst in enumerate(o.data) if inst.operation.params]
+            if not idx:
+                raise ValueError("no parameterised gate")
+            i = idx[p["k"] % len(idx)]
+            inst = o.data[i]
+            op = inst.operation
+            o.data[i] = inst.replace(operation=op.base_class(*([p["v"]] + list(op.params[1:]))))
         else:
             raise ValueError(mut)
     elif kind == "nd":
